@@ -42,7 +42,8 @@ CHECKS["C03"] = dict(
          "of AAA..CWD, CBW/CWD sign dependency; and, as closed forms with uninterpreted product / quotient / remainder terms, AX and DX after MUL, IMUL, DIV, IDIV "
          "(R11, structural comparison with the manual; divisions on their Ok paths) and the condition under which MUL/IMUL set CF=OF (R12, the condition of the "
          "helper's flag branch), AAM/AAD as plain arithmetic, and two clauses of the other adjusts (AAA/AAS zero AL's high nibble on every path; DAA/DAS make "
-         "their high-digit test on the adjusted AL). Does NOT decide the DAA/DAS/AAA/AAS results as numbers.",
+         "their high-digit test on the adjusted AL) and DAA/DAS/AAA/AAS as piecewise functions: the helper's paths are enumerated by forcing its branches, and the "
+         "path-wise closed forms of AX and the flags are compared with the manual's definition for every AL, AF, CF and four AH (R14).",
     design="DESIGN.md §6 C03")
 
 CHECKS["C04"] = dict(
